@@ -22,7 +22,7 @@
 (*   indent formatter   HAML / Pug / Slim: one line per element (IndentPrinted) *)
 (* Printed == the string expand(s, {'options': {'output.format': False,      *)
 (* 'output.selfClosingStyle': SelfClosingStyle}}) returns.                   *)
-EXTENDS AbbrConvert
+EXTENDS AbbrConvert, HtmlScan
 
 CONSTANT SelfClosingStyle          \* output.selfClosingStyle: "html" | "xhtml" | "xml"
 SelfCloseToken == IF SelfClosingStyle = "xhtml" THEN " /" ELSE IF SelfClosingStyle = "xml" THEN "/" ELSE ""
@@ -113,14 +113,90 @@ PrintNode(n) ==
        ELSE body                                      \* a text node: its text (if any), then its children
 Printed == PrintNodes(Transformed)
 
+(* ---------------------------- the HTML formatter with output.format on (html.py: element(), should_format(), get_indent(),
+   push_snippet()); default options: indent TAB, newline LF, inlineBreak 3, formatSkip {html}, formatForce {body}, formatLeafNode
+   off, comments off; text without line breaks and not starting with a tag.  NoNode stands for "no parent". *)
+RECURSIVE Tabs(_)
+Tabs(k) == IF k <= 0 THEN "" ELSE "\t" \o Tabs(k - 1)
+NoNode == [name |-> "", attrs |-> <<>>, hasval |-> FALSE, value |-> <<>>, sc |-> FALSE, kids |-> <<>>, none |-> TRUE]
+IsNone(n) == "none" \in DOMAIN n
+IsSnippetN(n) == ~IsNone(n) /\ n.name = "" /\ n.attrs = <<>>                            \* is_snippet(): no name, no attributes
+ValTruthy(n) == n.hasval /\ n.value # <<>>
+IsInlineN(n) == IF n.name # "" THEN LowerS(n.name) \in InlineElements ELSE (ValTruthy(n) /\ n.attrs = <<>>)      \* is_inline()
+IsInlineEl(items, i) == i >= 1 /\ i <= Len(items) /\ IsInlineN(items[i])                \* is_inline_element(get_item(...))
+HasFieldV(vl) == \E i \in 1..Len(vl) : vl[i].f
+RECURSIVE CountInline(_, _, _)
+CountInline(items, i, step) == IF IsInlineEl(items, i) THEN 1 + CountInline(items, i + step, step) ELSE 0
+FormatSkip == {"html"}
+InlineBreak == 3
+\* index is 1-based here; parent is the parent of the node for which element() asked - also for the look at the children ("stale" parent, as in the code)
+RECURSIVE ShouldFormat(_, _, _, _)
+ShouldFormat(n, index, items, parent) ==
+    IF index = 1 /\ IsNone(parent) THEN FALSE
+    ELSE IF ~IsNone(parent) /\ IsSnippetN(parent) /\ Len(items) = 1 THEN FALSE
+    ELSE IF IsSnippetN(n) /\ ( (index > 1 /\ IsSnippetN(items[index - 1])) \/ (index < Len(items) /\ IsSnippetN(items[index + 1]))
+                              \/ (HasFieldV(n.value) /\ n.kids # <<>>) ) THEN TRUE
+    ELSE IF IsInlineN(n)
+         THEN IF index = 1 /\ (\E k \in 1..Len(items) : ~IsInlineN(items[k])) THEN TRUE
+              ELSE IF index > 1 /\ ~IsInlineN(items[index - 1]) THEN TRUE
+              ELSE IF 1 + CountInline(items, index - 1, -1) + CountInline(items, index + 1, 1) >= InlineBreak THEN TRUE
+              ELSE \E k \in 1..Len(n.kids) : ShouldFormat(n.kids[k], k, n.kids, parent)
+    ELSE TRUE
+NLine(level) == "\n" \o Tabs(level)                                                     \* push_newline(level): base indent is empty
+HasNL(str) == \E i \in 1..Len(str) : SubSeq(str, i, i) = "\n"
+RECURSIVE LStrip(_)
+LStrip(str) == IF str # "" /\ IsSpace(SubSeq(str, 1, 1)) THEN LStrip(Tail(str)) ELSE str
+RECURSIVE FmtNodes(_, _, _, _), FmtNode(_, _, _, _, _)
+FmtNodes(items, k, parent, level) == IF k > Len(items) THEN "" ELSE FmtNode(items[k], k, items, parent, level) \o FmtNodes(items, k + 1, parent, level)
+FmtNode(n, index, items, parent, level) ==
+    LET fmt == ShouldFormat(n, index, items, parent)
+        ind == IF IsNone(parent) \/ IsSnippetN(parent) \/ (parent.name # "" /\ parent.name \in FormatSkip) THEN 0 ELSE 1       \* get_indent()
+        L == level + ind
+        kids == FmtNodes(n.kids, 1, n, L)
+        ff == IF ValTruthy(n) /\ n.kids # <<>> THEN FirstField(n.value) ELSE 0
+        spliced == LET after == SubSeq(n.value, ff + 1, Len(n.value)) IN                  \* push_snippet()
+                   Tokens(SubSeq(n.value, 1, ff - 1)) \o kids
+                   \o (IF HasNL(kids) /\ after # <<>> /\ ~after[1].f THEN LStrip(after[1].s) \o Tokens(Tail(after)) ELSE Tokens(after))
+        body == IF ff # 0 THEN spliced ELSE (IF ValTruthy(n) THEN Tokens(n.value) ELSE "") \o kids
+        self == IF n.name # ""
+                THEN "<" \o n.name \o PrintAttrs(n.attrs)
+                     \o (IF n.sc /\ n.kids = <<>> /\ ~ValTruthy(n) THEN SelfCloseToken \o ">" ELSE ">" \o body \o "</" \o n.name \o ">")
+                ELSE body
+    IN (IF fmt THEN NLine(L) ELSE "") \o self
+       \o (IF fmt /\ index = Len(items) /\ ~IsNone(parent) THEN NLine(L - (IF IsSnippetN(parent) THEN 0 ELSE 1)) ELSE "")
+PrintedFmt == FmtNodes(Transformed, 1, NoNode, 0)
+
+(* What C12 says of that output, checked on the model: the output is read back by the scanner transcription (HtmlScan.tla) and every
+   line after the first must start with one tab per element open at that point (one less in front of a closing tag; a line without
+   content is free), and a closing tag at the start of a line stands under its open tag if that was the first thing on its line.
+   Element names of the instance are not void. *)
+FOut == PrintedFmt
+FCh(i) == IF i >= 0 /\ i < Len(FOut) THEN SubSeq(FOut, i + 1, i + 1) ELSE ""
+RECURSIVE CountTabs(_)
+CountTabs(q) == IF FCh(q) = "\t" THEN 1 + CountTabs(q + 1) ELSE 0
+LayoutOk ==
+    LET evs == HScan(FOut)
+        NLs == {p \in 0..(Len(FOut) - 1) : FCh(p) = "\n"}
+        OpenAt(q) == Cardinality({k \in 1..Len(evs) : evs[k].ty = 1 /\ evs[k].e <= q}) - Cardinality({k \in 1..Len(evs) : evs[k].ty = 2 /\ evs[k].e <= q})
+        CloseAt(q) == \E k \in 1..Len(evs) : evs[k].ty = 2 /\ evs[k].s = q
+        LineOk(p) == LET t == CountTabs(p + 1) q == p + 1 + t IN
+                     ((q >= Len(FOut) \/ FCh(q) = "\n") /\ ~CloseAt(q)) \/ t = OpenAt(q) - (IF CloseAt(q) THEN 1 ELSE 0)
+        \* the line a tag starts on: position of the line break before it (-1: the first line)
+        LineOf(a) == LET B == {p \in NLs : p < a} IN IF B = {} THEN -1 ELSE CHOOSE p \in B : \A r \in B : r <= p
+        TabsOf(a) == IF LineOf(a) = -1 THEN 0 ELSE CountTabs(LineOf(a) + 1)
+        FirstOnLine(a) == a = LineOf(a) + 1 + TabsOf(a)
+        Bal(j, k) == Cardinality({m \in (j + 1)..(k - 1) : evs[m].ty = 1}) = Cardinality({m \in (j + 1)..(k - 1) : evs[m].ty = 2})
+        OpenOf(k) == LET J == {j \in 1..(k - 1) : evs[j].ty = 1 /\ Bal(j, k)} IN IF J = {} THEN 0 ELSE CHOOSE j \in J : \A r \in J : r <= j
+        AlignOk(k) == (evs[k].ty = 2 /\ LineOf(evs[k].s) # -1 /\ FirstOnLine(evs[k].s) /\ OpenOf(k) # 0 /\ FirstOnLine(evs[OpenOf(k)].s))
+                      => TabsOf(evs[k].s) = TabsOf(evs[OpenOf(k)].s)
+    IN (\A p \in NLs : LineOk(p)) /\ (\A k \in 1..Len(evs) : AlignOk(k))
+
 (* --------------------------------- the HAML / Pug / Slim formatter (indent_format.py) *)
 (* default options: formatting on, newline LF, indent TAB; text without line breaks (multi-line text: IndentFormat.tla) *)
 IOpt(syn) == CASE syn = "haml" -> [beforeName |-> "%", beforeAttr |-> "(", afterAttr |-> ")", glue |-> " ", boolVal |-> "true", selfClose |-> "/"]
                [] syn = "pug"  -> [beforeName |-> "",  beforeAttr |-> "(", afterAttr |-> ")", glue |-> ", ", boolVal |-> "",
                                    selfClose |-> IF SelfClosingStyle = "xml" THEN "/" ELSE ""]
                [] syn = "slim" -> [beforeName |-> "",  beforeAttr |-> " ", afterAttr |-> "",  glue |-> " ", boolVal |-> "", selfClose |-> "/"]
-RECURSIVE Tabs(_)
-Tabs(k) == IF k <= 0 THEN "" ELSE "\t" \o Tabs(k - 1)
 \* re.sub(r'\s+', '.', t): every run of white space in a string token becomes one dot
 RECURSIVE DotWS(_, _)
 DotWS(x, inRun) == IF x = "" THEN ""
